@@ -1,4 +1,4 @@
-import Percival.Proofs.TimerQueue
+import Percival.Proofs.TimerQueueRun
 /-!
 # C13: concrete states used by the non-vacuity examples in `Properties/C13.lean`,
 and the "handles stay valid" corollaries for the timer queue
@@ -23,6 +23,11 @@ end Percival.Proofs.Heap
 
 namespace Percival.Proofs.TQ
 open Percival.Model Percival.Model.TimerQueue Percival.Proofs.Heap Percival.Spec.PQ
+
+/-- equal and distinct times, a deletion by handle, an increase, releases and refusals -/
+def exTOps : List TOp :=
+  [.add 1 5 0 101, .add 2 5 0 102, .add 3 2 7 103, .add 4 9 1 104, .getmin, .get 2 6, .inc 3 5 0, .del 2,
+   .get 5 0, .get 5 0, .get 5 0, .getmin]
 
 /-- three timers, two with the same time -/
 def exQ : TQ := add (add (add TimerQueue.empty 1 5 0 101) 2 5 0 102) 3 2 7 103
